@@ -947,6 +947,17 @@ where
         self.process_client_cmds().await
     }
 
+    /// Read-only view: (role, current term, commit index, voted_for as (id, term, committed)).
+    pub fn verif_view(&self) -> (i32, u64, u64, Option<(u32, u64, bool)>) {
+        let st = self.role.state();
+        let vf = st
+            .voted_for()
+            .ok()
+            .flatten()
+            .map(|v| (v.voted_for_id, v.voted_for_term, v.committed));
+        (self.role.as_i32(), st.current_term(), st.commit_index(), vf)
+    }
+
     /// Inbound events a role pushed to itself through `event_tx` (e.g. replayed requests).
     pub fn verif_take_self_inbound(&mut self) -> Vec<InboundEvent> {
         let mut v = Vec::new();
